@@ -23,6 +23,9 @@ const (
 )
 
 func (k Kind) String() string {
+	if k < 0 || int(k) > 4 {
+		return "no recording handler"
+	}
 	return [...]string{"route", "redirect", "options", "no-method", "no-route"}[k]
 }
 
